@@ -168,8 +168,15 @@ template <class G> class Obj : public IObj {
     G g;
     int variant = 0; // weighted classes: 1 = inexact weights
     bool sawHuge = false; // a weight of 1e20 went through this object's running total
-    Obj() : g(0) {}
-    explicit Obj(const G &o, int v = 0) : g(o), variant(v) {}
+    // a view obtained from edges() when the object was created (before any later resize /
+    // insertion): edges() is a live view of the graph, traversing it later enumerates the
+    // graph as it is then (C08)
+    using EdgesView = decltype(std::declval<const G &>().edges());
+    std::unique_ptr<EdgesView> keptView;
+    Obj() : g(0) { keptView.reset(new EdgesView(g.edges())); }
+    explicit Obj(const G &o, int v = 0) : g(o), variant(v) { keptView.reset(new EdgesView(g.edges())); }
+    Obj(const Obj &) = delete;
+    Obj &operator=(const Obj &) = delete;
 
     std::unique_ptr<IObj> clone() const override {
         auto *c = new Obj<G>(g, variant); // copy constructor of the class
@@ -467,6 +474,13 @@ template <class G> class Obj : public IObj {
                 s4.push_back(e);
             if (s1 != s2 || s1 != s3 || s1 != s4)
                 bad += "[iter] edge traversals disagree; ";
+            if (keptView) {
+                std::vector<Edge> s5;
+                for (auto e : *keptView)
+                    s5.push_back(e);
+                if (s5 != s1)
+                    bad += "[iter] a view obtained from edges() before the last mutations does not enumerate the current graph; ";
+            }
             for (auto &e : s1) {
                 if (e.first >= n || e.second >= n) {
                     bad += "[range] edge out of range; ";
